@@ -10,7 +10,9 @@ HARNESSES = {
         "turn": (".", "turn"),
         "server": ("internal/server", "server"),
         "client": ("internal/client", "client"),
+        "allocation": ("internal/allocation", "allocation"),
     },
+    "H12": {"pkg": "./internal/allocation/", "run": "^TestVerifH12$", "streams": ["h12"], "toolchain": None, "timeout": (300, 600)},
     "H10": {"pkg": "./internal/client/", "run": "^TestVerifH10$", "streams": ["h10"], "toolchain": None, "timeout": (300, 600)},
     "H2": {"pkg": ".", "run": "^TestVerifH2$", "streams": ["h2"], "toolchain": "go1.26.0", "timeout": (900, 3000)},
     "H9": {"pkg": ".", "run": "^TestVerifH9$", "streams": ["h9"], "toolchain": "go1.26.0", "timeout": (300, 600)},
@@ -142,12 +144,13 @@ PROPS.update({
                   ["allocation-count-mismatch", "sockets-left-after-close", "server-close-leaves-control-connections", "even-port-probe-left-open", "bind-response-lost-leaks-peer-connection"],
                   ["PARTIAL: goroutines and timers are ghost state in the model (one timer per entity, one reader goroutine per allocation); "
                    "their real existence is observed only through the simnet open/close log and the synctest bubble draining at the end of every history"]),
-    "C16": dict(h2prop(["TurnModel.Props.C16"],
+    "C16": dict(h2prop(["TurnModel.Props.C16", "TurnModel.Props.C16Timer"],
                        ["m:connect", "m:cbind", "pconn", "pc2p", "pp2c", "pclosec", "pclosep", "adv", "cclose", "rerr", "close", "state"],
-                       ["resp", "dial", "catt", "cclosed", "p2p", "p2c", "dclosed"], ["manager-blocked-by-dial", "h9-setup", "server-wedged", "bind-response-lost-leaks-peer-connection", "bind-pipelined-bytes-lost"],
+                       ["resp", "dial", "catt", "cclosed", "p2p", "p2c", "dclosed"], ["manager-blocked-by-dial", "h9-setup", "server-wedged", "bind-response-lost-leaks-peer-connection", "bind-pipelined-bytes-lost",
+                        "bound-connection-closed-by-bind-timer", "connection-attached-to-dead-allocation", "bind-rule-broken", "h12-setup"],
                        ["PARTIAL: io.Copy / TCP byte piping is the runtime's; byte integrity of the pipe is observed by the harness, not proved about Go",
                         "connection ids are canonicalised to first-occurrence indices (the real ids are random)"]),
-                env={"VERIF_H2_MODE": "tcp"}, harnesses=["H2", "H9"]),
+                env={"VERIF_H2_MODE": "tcp"}, harnesses=["H2", "H9", "H12"]),
 })
 
 PROPS["C18"] = {
